@@ -26,7 +26,7 @@ func init() {
 		extraHashed[p] = append(extraHashed[p],
 			"Conn.clientHandshake", "clientHandshakeState.handshake", "clientHandshakeState.doFullHandshake",
 			"clientHandshakeState.readFinished", "clientHandshakeState.sendFinished",
-			"Conn.readClientHello", "serverHandshakeState.handshake", "serverHandshakeState.doFullHandshake",
+			"Conn.readClientHello", "Conn.serverHandshake", "serverHandshakeState.handshake", "serverHandshakeState.doFullHandshake",
 			"serverHandshakeState.doResumeHandshake", "serverHandshakeState.readFinished",
 			"serverHandshakeState.sendFinished", "Conn.readRecordOrCCS", "Conn.readHandshake",
 			"Conn.writeHandshakeRecord", "transcriptMsg")
@@ -147,6 +147,7 @@ func emitTranscript(e *emitter, p *pkg) {
 		{"trClientFull", "clientHandshakeState.doFullHandshake"},
 		{"trClientReadFinished", "clientHandshakeState.readFinished"},
 		{"trClientSendFinished", "clientHandshakeState.sendFinished"},
+		{"trServerHandshake", "Conn.serverHandshake"},
 		{"trServerReadHello", "Conn.readClientHello"},
 		{"trServerHS", "serverHandshakeState.handshake"},
 		{"trServerFull", "serverHandshakeState.doFullHandshake"},
